@@ -104,3 +104,14 @@ Proof.
   destruct (cap <? compressBound srcSize); discriminate.
 Qed.
 Print Assumptions C06_hc_mid_strict.
+
+(* ... and in fillOutput mode (LZ4_compress_HC_destSize at levels 1-2): although the last match may have been
+   shortened and the last run adapted to the room left, the block is strictly valid and decodes to the consumed
+   prefix. *)
+Theorem C06_hc_mid_destSize_strict :
+  forall src srcSize target,
+    src_ok src -> 0 <= srcSize < 2147483648 -> 0 <= target ->
+    let r := compress_HC_destSize_mid src srcSize target in
+    0 < hr_ret r -> strict_valid [] (hr_out r) = Some (load_list src 0 (Z.to_nat (hr_consumed r))).
+Proof. exact compress_HC_destSize_mid_strict. Qed.
+Print Assumptions C06_hc_mid_destSize_strict.
